@@ -635,6 +635,7 @@ func runC17(c *Ctx) {
 	runC17FreshBatch(c, funcs)
 	runC17Round5(c)
 	runC17LimitRecheck(c)
+	runC17Batch3(c)
 }
 
 func entryInstrOf(b *ssa.BasicBlock) ssa.Instruction { return b.Instrs[0] }
